@@ -758,6 +758,24 @@ func (w *Writer) AddAnimations(animations []animation.Sequence, skeleton animati
 			return err
 		}
 		joints[i] = joint
+
+		// glTF: an accessor has at least one element; key frame times are >= 0 and
+		// strictly increasing (as the float32 they are stored as)
+		frames := animation.Frames()
+		if len(frames) == 0 {
+			return fmt.Errorf("%w: sequence %d for joint %q has no frames", ErrInvalidInput, i, animation.Joint())
+		}
+		for f, frame := range frames {
+			t := float32(frame.Time())
+			if !(t >= 0) || math.IsInf(float64(t), 0) {
+				return fmt.Errorf("%w: sequence %d for joint %q: time of frame %d is %g, want a finite time >= 0",
+					ErrInvalidInput, i, animation.Joint(), f, frame.Time())
+			}
+			if f > 0 && !(t > float32(frames[f-1].Time())) {
+				return fmt.Errorf("%w: sequence %d for joint %q: time of frame %d (%g) is not after the time of frame %d (%g)",
+					ErrInvalidInput, i, animation.Joint(), f, frame.Time(), f-1, frames[f-1].Time())
+			}
+		}
 	}
 
 	for i, animation := range animations {
